@@ -88,6 +88,85 @@ theorem mem_deleteOrder {os : List Order} {id : Nat} {o : Order} (h : o ∈ dele
       · simp
       · exact List.mem_cons_of_mem _ (ih h')
 
+theorem deleteOrder_sublist (os : List Order) (id : Nat) : (deleteOrder os id).Sublist os := by
+  induction os with
+  | nil => simp [deleteOrder]
+  | cons x t ih =>
+    simp only [deleteOrder]
+    split
+    · exact List.sublist_cons_self x t
+    · exact ih.cons_cons x
+
+theorem deleteAll_sublist (os : List Order) (ids : List Nat) : (deleteAll os ids).Sublist os := by
+  induction ids generalizing os with
+  | nil => simp [deleteAll]
+  | cons id t ih =>
+    simp only [deleteAll, List.foldl_cons]
+    exact (ih (deleteOrder os id)).trans (deleteOrder_sublist os id)
+
+theorem getOrder_none_not_mem {os : List Order} {id : Nat} (h : getOrder os id = none) : id ∉ os.map (·.id) := by
+  induction os with
+  | nil => simp
+  | cons x t ih =>
+    simp only [getOrder] at h
+    split at h
+    · simp at h
+    · rename_i hx
+      simp only [List.map_cons, List.mem_cons, not_or]
+      exact ⟨fun heq => hx heq.symm, ih h⟩
+
+theorem getOrder_none_of_not_mem {os : List Order} {id : Nat} (h : id ∉ os.map (·.id)) : getOrder os id = none := by
+  induction os with
+  | nil => rfl
+  | cons x t ih =>
+    simp only [List.map_cons, List.mem_cons, not_or] at h
+    simp only [getOrder]
+    split
+    · rename_i hx; exact absurd hx.symm h.1
+    · exact ih h.2
+
+/-- with distinct ids, deleting an id leaves no order with that id -/
+theorem getOrder_deleteOrder_self {os : List Order} (hn : (os.map (·.id)).Nodup) (id : Nat) :
+    getOrder (deleteOrder os id) id = none := by
+  induction os with
+  | nil => simp [deleteOrder, getOrder]
+  | cons x t ih =>
+    simp only [List.map_cons, List.nodup_cons] at hn
+    simp only [deleteOrder]
+    split
+    · rename_i hx
+      rw [← hx]
+      exact getOrder_none_of_not_mem hn.1
+    · rename_i hx
+      simp only [getOrder, hx, ↓reduceIte]
+      exact ih hn.2
+
+theorem ids_setOrder_some {os : List Order} {n o : Order} (h : getOrder os n.id = some o) :
+    (setOrder os n).map (·.id) = os.map (·.id) := by
+  induction os with
+  | nil => simp [getOrder] at h
+  | cons x t ih =>
+    simp only [getOrder] at h
+    simp only [setOrder]
+    split
+    · rename_i hx; simp [hx]
+    · rename_i hx
+      simp only [hx, ↓reduceIte] at h
+      simp [ih h]
+
+theorem ids_setOrder_none {os : List Order} {n : Order} (h : getOrder os n.id = none) :
+    (setOrder os n).map (·.id) = os.map (·.id) ++ [n.id] := by
+  induction os with
+  | nil => simp [setOrder]
+  | cons x t ih =>
+    simp only [getOrder] at h
+    simp only [setOrder]
+    split
+    · rename_i hx; simp [hx] at h
+    · rename_i hx
+      simp only [hx, ↓reduceIte] at h
+      simp [ih h]
+
 /-- contribution of the stored order with id `id` (0 when there is none) -/
 def storedContrib (os : List Order) (id : Nat) (a : Addr) (d : Denom) : Int :=
   match getOrder os id with
